@@ -3,15 +3,294 @@
 package didweb
 
 import (
+	"net"
+	"net/url"
+
 	"github.com/nuts-foundation/go-did/did"
 )
 
-func H18probe() {
-	n := vLen(0, vParam("n", 3))
-	s := vString(n)
-	u, err := DIDToURL(did.DID{Method: "web", ID: s})
-	if err == nil {
-		vCover("ok")
-		vAssert(u.Scheme == "https", "H18probe.https: scheme")
+// ---------------------------------------------------------------------------------------------
+// Template language for method-specific ids. A template is a string in which three control bytes
+// stand for one symbolic byte each:
+//
+//	\x01  any byte (0..255)
+//	\x02  a decimal digit or the letter 'a'   (IPv4 fields, ports)
+//	\x03  a hexadecimal digit, either case    (second and third byte of a percent escape)
+//
+// Every other byte is literal. Lengths are therefore concrete per template, content symbolic.
+// ---------------------------------------------------------------------------------------------
+
+const (
+	hAny = "\x01"
+	hDig = "\x02"
+	hHex = "\x03"
+)
+
+func hIsHexByte(c byte) bool {
+	return (c >= '0' && c <= '9') || (c >= 'A' && c <= 'F') || (c >= 'a' && c <= 'f')
+}
+
+func hFromTemplate(t string) string {
+	out := ""
+	for i := 0; i < len(t); i++ {
+		switch t[i] {
+		case 1:
+			out += vString(1)
+		case 2:
+			s := vString(1)
+			vAssume((s[0] >= '0' && s[0] <= '9') || s[0] == 'a')
+			out += s
+		case 3:
+			s := vString(1)
+			vAssume(hIsHexByte(s[0]))
+			out += s
+		default:
+			out += t[i : i+1]
+		}
+	}
+	return out
+}
+
+// h18aTemplates: the id shapes beyond "every byte string up to n bytes". Order = cost/priority; the
+// parameter `tmpl` selects how many of them a tier uses.
+var h18aTemplates = []string{
+	// --- IP literals with and without port (dots raw or escaped, brackets raw or escaped)
+	hDig + "." + hDig + "." + hDig + "." + hDig,                 // 0  d.d.d.d
+	hDig + "." + hDig + "." + hDig + "." + hDig + "%3A" + hDig,  // 1  d.d.d.d:p
+	hDig + "." + hDig + "." + hDig + "%3A" + hDig,               // 2  three fields: a name, not an address
+	"[%3A%3A]",                                                  // 3  [::]
+	"[%3A%3A" + hDig + "]",                                      // 4  [::d]
+	"%5B%3A%3A" + hDig + "%5D%3A" + hDig,                        // 5  [::d]:p
+	"[" + hDig + "%3A%3A]%3A" + hDig,                            // 6  [d::]:p
+	"%5B" + hAny + hAny + "%5D",                                 // 7  [xx]
+	// --- user-info
+	hAny + "%40" + hAny,            // 8   x@y
+	"u%3Ap%40" + hAny,              // 9   u:p@x
+	hAny + "%40" + hAny + ":p",     // 10  x@y/p
+	// --- ports
+	hAny + "%3A" + hAny,            // 11  x:y
+	"a%3a" + hDig + hDig,           // 12  lower-case escape
+	"a%3A" + hDig + ":" + hAny,     // 13  a:d/x
+	// --- arbitrary escaped byte in the host position (decodes to '/', '?', '#', '@', '\\', ' ', ...)
+	"%" + hHex + hHex,              // 14
+	"a%" + hHex + hHex + "b",       // 15
+	"a%25" + hHex + hHex,           // 16  doubly encoded
+	// --- path segments
+	"a:" + hAny + hAny,             // 17
+	"a:" + hAny + ":" + hAny,       // 18
+	"a:%" + hHex + hHex,            // 19  arbitrary escape as a segment
+	"a:%2E" + hAny,                 // 20
+	"a:" + hAny + "%2E",            // 21
+	"a:%2E%2E",                     // 22
+	"a:%2e%2E:b",                   // 23
+	"a:b:..:c",                     // 24
+	"a:b%2F" + hAny,                // 25
+	"a:%2F" + hAny,                 // 26
+	"a:b%3A" + hAny,                // 27  %3A is decoded inside a segment
+	// --- IPv6 zones
+	"%5B%3A%3A%25" + hAny + "%5D",   // 28  [::%x]
+	"%5B%3A%3A%2525" + hAny + "%5D", // 29  [::%25x]
+	// --- longer IPv4 shapes (thorough)
+	hDig + hDig + "." + hDig + "." + hDig + "." + hDig,                // 30
+	hDig + "%2E" + hDig + "." + hDig + "." + hDig + "%3A" + hDig,      // 31
+	"%5B" + hDig + "%3A%3A" + hDig + "." + hDig + "." + hDig + "." + hDig + "%5D", // 32 [d::d.d.d.d]
+	"%5B" + hAny + hAny + hAny + "%5D",                                // 33
+	hAny + "%3A" + hAny + hAny,                                        // 34
+	"a:" + hAny + ":" + hAny + hAny,                                   // 35
+}
+
+// hHexVal: value of a hexadecimal digit (branch-free for the engine).
+func hHexVal(c byte) (byte, bool) {
+	var v byte
+	ok := false
+	if c >= '0' && c <= '9' {
+		v = c - '0'
+		ok = true
+	}
+	if c >= 'A' && c <= 'F' {
+		v = c - 'A' + 10
+		ok = true
+	}
+	if c >= 'a' && c <= 'f' {
+		v = c - 'a' + 10
+		ok = true
+	}
+	return v, ok
+}
+
+// hRefFirstSegment: reference decoder, written against RFC 3986 percent-encoding and the did:web rule
+// "the first ':'-separated part of the method-specific id is the percent-encoded host[:port]".
+// ok=false: the part contains a malformed escape.
+func hRefFirstSegment(id string) (host string, ok bool) {
+	var b []byte
+	i := 0
+	for i < len(id) && id[i] != ':' {
+		c := id[i]
+		if c != '%' {
+			b = append(b, c)
+			i++
+			continue
+		}
+		if i+2 >= len(id) {
+			return "", false
+		}
+		h, ok1 := hHexVal(id[i+1])
+		l, ok2 := hHexVal(id[i+2])
+		if !ok1 || !ok2 {
+			return "", false
+		}
+		b = append(b, h<<4|l)
+		i += 3
+	}
+	return string(b), true
+}
+
+func hHasRawQueryOrFragmentByte(id string) bool {
+	r := false
+	for i := 0; i < len(id); i++ {
+		c := id[i]
+		r = r || c == '?' || c == '#'
+	}
+	return r
+}
+
+func hHasEscapedDot(id string) bool {
+	r := false
+	for i := 0; i+2 < len(id); i++ {
+		r = r || (id[i] == '%' && id[i+1] == '2' && (id[i+2] == 'E' || id[i+2] == 'e'))
+	}
+	return r
+}
+
+// hCheckURL asserts the C18 origin binding on a URL that DIDToURL returned for `id`.
+func hCheckURL(hid string, id string, u *url.URL) {
+	vAssert(u != nil, hid+".url_not_nil: success without a URL")
+	vAssert(u.Scheme == "https", hid+".scheme_https: did:web URL is not https")
+	vAssert(u.User == nil, hid+".no_userinfo: did:web URL carries user-info")
+	vAssert(u.Opaque == "", hid+".not_opaque: did:web URL is opaque")
+
+	host, ok := hRefFirstSegment(id)
+	vAssert(ok, hid+".host_escape_wellformed: id with a malformed escape in the host part was accepted")
+	vAssert(u.Host == host, hid+".host_is_first_segment: URL host is not the decoded first id segment")
+
+	ip := net.ParseIP(u.Hostname())
+	if ip != nil {
+		if len(host) > 0 && host[0] == '[' {
+			vClass("IPv6 literal")
+		} else {
+			vClass("IPv4 literal")
+		}
+	}
+	vAssert(ip == nil, hid+".host_not_ip: did:web URL host is an IP address literal")
+
+	if hHasRawQueryOrFragmentByte(id) {
+		// A raw '?' or '#' ends the DID in every DID (URL) parser: such a value cannot be the ID of a parsed
+		// DID. For these hand-made ids only the origin clauses above are claimed.
+		vCover("raw-?#-in-id")
+		return
+	}
+	vAssert(u.RawQuery == "" && !u.ForceQuery, hid+".no_query: did:web URL has a query")
+	vAssert(u.Fragment == "" && u.RawFragment == "", hid+".no_fragment: did:web URL has a fragment")
+
+	// path elements of the escaped path: none empty, none a dot segment (RFC 3986 5.2.4) after decoding
+	ep := u.EscapedPath()
+	if len(ep) == 0 {
+		vCover("no-path")
+		return
+	}
+	vCover("with-path")
+	vAssert(ep[0] == '/', hid+".path_absolute: URL path does not start with '/'")
+	n := 0        // decoded length of the current element
+	dots := true  // current element consists of '.' only
+	empty := false
+	dotseg := false
+	i := 1
+	for i <= len(ep) {
+		if i == len(ep) || ep[i] == '/' {
+			empty = empty || n == 0
+			dotseg = dotseg || (dots && (n == 1 || n == 2))
+			n, dots = 0, true
+			i++
+			continue
+		}
+		c := ep[i]
+		if c == '%' && i+2 < len(ep) {
+			h, ok1 := hHexVal(ep[i+1])
+			l, ok2 := hHexVal(ep[i+2])
+			if ok1 && ok2 {
+				c = h<<4 | l
+				i += 2
+			}
+		}
+		n++
+		dots = dots && c == '.'
+		i++
+	}
+	vAssert(!empty, hid+".no_empty_path_element: URL path has an empty element")
+	if dotseg {
+		if hHasEscapedDot(id) {
+			vClass("percent-encoded dot segment")
+		} else {
+			vClass("raw dot segment")
+		}
+	}
+	vAssert(!dotseg, hid+".no_dot_segment: URL path has a '.' or '..' element")
+}
+
+// H18a: DIDToURL on every byte string up to n bytes and on the templates above.
+func H18a() {
+	n := vParam("n", 2)
+	nt := vParam("tmpl", 30)
+	if nt > len(h18aTemplates) {
+		nt = len(h18aTemplates)
+	}
+	var id string
+	k := vChoice(nt + 1)
+	if k == 0 {
+		vCover("free")
+		vTag("id")
+		id = vString(vLen(0, n))
+	} else {
+		vCover("template")
+		id = hFromTemplate(h18aTemplates[k-1])
+	}
+	u, err := DIDToURL(did.DID{Method: "web", ID: id})
+	if err != nil {
+		vCover("rejected")
+		vAssert(u == nil, "H18a.error_without_url: error and URL returned together")
+		return
+	}
+	vCover("accepted")
+	if len(u.Port()) > 0 {
+		vCover("accepted-with-port")
+	}
+	hCheckURL("H18a", id, u)
+}
+
+func H18a_twin() {
+	id := "a%3A" + vString(1) + ":" + vString(1)
+	u, err := DIDToURL(did.DID{Method: "web", ID: id})
+	if err == nil && u.Port() != "" && u.Path != "" {
+		vAssert(false, "H18a_twin.reach: reachable")
+	}
+}
+
+// H18a0: the method gate - anything but "web" is refused.
+func H18a0() {
+	m := vString(vLen(0, 3))
+	u, err := DIDToURL(did.DID{Method: m, ID: "example.com"})
+	if m == "web" {
+		vCover("web")
+		vAssert(err == nil && u != nil && u.Host == "example.com", "H18a0.web_accepted: did:web:example.com refused")
+	} else {
+		vCover("other")
+		vAssert(err != nil && u == nil, "H18a0.other_method_refused: a DID of another method was converted to a URL")
+	}
+}
+
+func H18a0_twin() {
+	m := vString(3)
+	if _, err := DIDToURL(did.DID{Method: m, ID: "example.com"}); err == nil {
+		vAssert(false, "H18a0_twin.reach: reachable")
 	}
 }
